@@ -11,6 +11,7 @@ import (
 	metav1 "k8s.io/apimachinery/pkg/apis/meta/v1"
 
 	enginev2alpha2 "github.com/NVIDIA/KAI-scheduler/pkg/apis/scheduling/v2alpha2"
+	commonconstants "github.com/NVIDIA/KAI-scheduler/pkg/common/constants"
 	"github.com/NVIDIA/KAI-scheduler/pkg/scheduler/actions/allocate"
 	"github.com/NVIDIA/KAI-scheduler/pkg/scheduler/actions/utils"
 	"github.com/NVIDIA/KAI-scheduler/pkg/scheduler/api"
@@ -78,6 +79,10 @@ type alJob struct {
 	Spec     int    // spec.preemptibility: unset / preemptible / non-preemptible, independent of Prio
 	Running  string // node name when the job is already running (not a candidate)
 	RunGPUs  int    // GPUs of the single pod of a running job
+	// last-start stamp (annotation kai.scheduler/last-start-timestamp), seconds after the base time; HasLS false:
+	// the pod group has no annotation
+	HasLS bool
+	LS    int64
 }
 
 type alQueue struct {
@@ -260,6 +265,13 @@ func genCluster(r *u.Rng, pool []int32) cluster {
 			Spec: specFor(r, want, prio)})
 	}
 	return c
+}
+
+// addLastStarts gives every job of the world (pending, running, ghost) a last-start state from its own stream
+func addLastStarts(r *u.Rng, c *cluster) {
+	for i := range c.Jobs {
+		c.Jobs[i].HasLS, c.Jobs[i].LS, _ = drawLS(r, c.Jobs[i].Age)
+	}
 }
 
 var ghostNamespaces = []string{"", "team-a", "other-ns", "kube-system"}
@@ -485,7 +497,23 @@ func (a *allocRunner) run(c cluster, depth int) (res alResult, err error) {
 		byUID[j.UID] = j
 		// exact, tie-prone creation times (jobs_fake derives them from time.Now())
 		if info, ok := ssn.ClusterInfo.PodGroupInfos[common_info.PodGroupID(uidStr(j.UID))]; ok {
-			info.CreationTimestamp = metav1.Time{Time: baseTime.Add(time.Duration(j.Age) * time.Second)}
+			created := metav1.Time{Time: baseTime.Add(time.Duration(j.Age) * time.Second)}
+			// jobs_fake stamps every job that has allocated pods with time.Now() - 1 min (not through the annotation);
+			// the harness decides: no annotation = never stamped (a job started by a scheduler that did not stamp)
+			info.LastStartTimestamp = nil
+			if j.HasLS {
+				// the job's history, the way the cluster snapshot restores it in every cycle: the real SetPodGroup
+				// on the pod group carrying the annotation the status updater wrote when the job was started
+				pg := info.PodGroup.DeepCopy()
+				pg.CreationTimestamp = created
+				pg.Spec.MinMember = int32(len(info.GetAllPodsMap()))
+				if pg.Annotations == nil {
+					pg.Annotations = map[string]string{}
+				}
+				pg.Annotations[commonconstants.LastStartTimeStamp] = lsAnnotation(j.LS)
+				info.SetPodGroup(pg)
+			}
+			info.CreationTimestamp = created
 		}
 		if j.Running == "" {
 			pendingUIDs = append(pendingUIDs, j.UID)
@@ -521,8 +549,16 @@ func (a *allocRunner) run(c cluster, depth int) (res alResult, err error) {
 		if accepted {
 			sub = [][2]int{{len(pods), len(pods)}}
 		}
-		return jobSpec{UID: uid, Queue: j.Queue, Prio: info.Priority, CTime: j.Age, Sub: sub, Shape: j.Template,
-			Pre: supposedPre(j.Spec, j.Prio), Req: req}, nil
+		js := jobSpec{UID: uid, Queue: j.Queue, Prio: info.Priority, CTime: j.Age, Sub: sub, Shape: j.Template,
+			Pre: supposedPre(j.Spec, j.Prio), Req: req}
+		// the stamp the scheduler holds (whole seconds: RFC3339)
+		if info.LastStartTimestamp != nil {
+			js.HasLS, js.LS = true, info.LastStartTimestamp.Unix()-baseTime.Unix()
+		}
+		if js.HasLS != j.HasLS || js.LS != j.LS {
+			return jobSpec{}, fmt.Errorf("last-start stamp of %s: given %v %d, the snapshot holds %v %d", uidStr(uid), j.HasLS, j.LS, js.HasLS, js.LS)
+		}
+		return js, nil
 	}
 	for _, uid := range runningUIDs {
 		js, err := spec(uid, true)
@@ -721,17 +757,18 @@ func emitAL(out *u.Out, origin string, c cluster, depth int, res alResult) {
 			if ns == "" {
 				ns = "default"
 			}
-			js = append(js, fmt.Sprintf("%su%d:GHOST(%s q%d ns=%s):p%d:t%d:T%d:%s", mark, j.UID, ghostName[aj.Ghost], j.Queue, ns,
-				j.Prio, j.CTime, j.Shape, preShort(aj.Spec, aj.Prio)))
+			js = append(js, fmt.Sprintf("%su%d:GHOST(%s q%d ns=%s):p%d:t%d%s:T%d:%s", mark, j.UID, ghostName[aj.Ghost], j.Queue, ns,
+				j.Prio, j.CTime, j.lsShort(), j.Shape, preShort(aj.Spec, aj.Prio)))
 			continue
 		}
-		js = append(js, fmt.Sprintf("%su%d:q%d:p%d:t%d:T%d:%s:gate=%s/%s", mark, j.UID, j.Queue, j.Prio, j.CTime, j.Shape,
+		js = append(js, fmt.Sprintf("%su%d:q%d:p%d:t%d%s:T%d:%s:gate=%s/%s", mark, j.UID, j.Queue, j.Prio, j.CTime, j.lsShort(), j.Shape,
 			preShort(byUID[j.UID].Spec, byUID[j.UID].Prio), verdictShort[gate[j.UID].Capacity], verdictShort[gate[j.UID].NPQuota]))
 	}
 	var rs []string
 	for _, j := range c.Jobs {
 		if j.Running != "" {
-			rs = append(rs, fmt.Sprintf("u%d:q%d:p%d:%s:%dgpu@%s", j.UID, j.Queue, j.Prio, preShort(j.Spec, j.Prio), j.RunGPUs, j.Running))
+			rs = append(rs, fmt.Sprintf("u%d:q%d:p%d%s:%s:%dgpu@%s", j.UID, j.Queue, j.Prio, jobSpec{HasLS: j.HasLS, LS: j.LS}.lsShort(),
+				preShort(j.Spec, j.Prio), j.RunGPUs, j.Running))
 		}
 	}
 	var qsShort []string
@@ -783,7 +820,34 @@ func emitAL(out *u.Out, origin string, c cluster, depth int, res alResult) {
 			if gate[a.UID].Capacity != 0 {
 				gated++
 			}
+			// FIFO pairs (equal priority, different creation time) by the stamps of the older / younger job
+			if a.Prio == b.Prio && a.CTime != b.CTime {
+				older, younger := a, b
+				if b.CTime < a.CTime {
+					older, younger = b, a
+				}
+				out.Count("alloc:fifo-pairs")
+				split := res.Placed[a.UID] != res.Placed[b.UID]
+				if older.HasLS && older.LS > younger.CTime && !(younger.HasLS && younger.LS >= older.LS) {
+					out.Count("alloc:fifo-pairs-older-restarted-after-younger-created")
+					if split {
+						out.Count("alloc:fifo-pairs-older-restarted-after-younger-created-split")
+					}
+				}
+				if older.HasLS != younger.HasLS || older.LS != younger.LS {
+					out.Count("alloc:fifo-pairs-different-stamps")
+					if split {
+						out.Count("alloc:fifo-pairs-different-stamps-split")
+					}
+				}
+			}
 		}
+	}
+	for _, j := range res.Jobs {
+		countLS(out, "alloc", j)
+	}
+	for _, j := range res.Running {
+		countLS(out, "alloc", j)
 	}
 	out.CountN("alloc:comparable-pairs", pairs)
 	out.CountN("alloc:comparable-pairs-split", decided)
